@@ -101,6 +101,8 @@ impl<'s> ParseState<'s> {
 
     /// Add a new warning.
     pub fn add_warning(&mut self, kind: ParseErrorKind, location: Range<Position>) {
+        #[cfg(feature = "verif_hooks")]
+        crate::verif_hooks::step();
         self.warnings.push(ParseError {
             path: self.path.to_string(),
             kind,
@@ -130,6 +132,8 @@ impl<'s> ParseState<'s> {
 
     /// Whether the input is ended.
     pub fn ended(&self) -> bool {
+        #[cfg(feature = "verif_hooks")]
+        crate::verif_hooks::step();
         self.cur_str().len() == 0
     }
 
@@ -155,6 +159,8 @@ impl<'s> ParseState<'s> {
 
     /// Try parse with `f` , reverting the state if it returns `None` .
     pub(crate) fn try_parse<T>(&mut self, f: impl FnOnce(&mut Self) -> Option<T>) -> Option<T> {
+        #[cfg(feature = "verif_hooks")]
+        crate::verif_hooks::step();
         let prev = self.cur_index;
         let prev_line = self.line;
         let prev_utf16_col = self.utf16_col;
@@ -168,6 +174,8 @@ impl<'s> ParseState<'s> {
     }
 
     fn skip_bytes(&mut self, count: usize) {
+        #[cfg(feature = "verif_hooks")]
+        crate::verif_hooks::step();
         let skipped = &self.cur_str()[..count];
         self.cur_index += count;
         let line_wrap_count = skipped
@@ -205,6 +213,8 @@ impl<'s> ParseState<'s> {
     }
 
     pub(crate) fn peek_chars(&mut self) -> impl 's + Iterator<Item = char> {
+        #[cfg(feature = "verif_hooks")]
+        crate::verif_hooks::step();
         if let Some(f) = self.auto_skip_whitespace.as_ref() {
             f(self);
         }
@@ -229,6 +239,8 @@ impl<'s> ParseState<'s> {
     }
 
     pub(crate) fn peek_str(&mut self, s: &str) -> bool {
+        #[cfg(feature = "verif_hooks")]
+        crate::verif_hooks::step();
         if let Some(f) = self.auto_skip_whitespace.as_ref() {
             f(self);
         }
@@ -302,6 +314,8 @@ impl<'s> ParseState<'s> {
     }
 
     pub(crate) fn next(&mut self) -> Option<char> {
+        #[cfg(feature = "verif_hooks")]
+        crate::verif_hooks::step();
         if let Some(f) = self.auto_skip_whitespace.as_ref() {
             f(self);
         }
@@ -321,6 +335,8 @@ impl<'s> ParseState<'s> {
     }
 
     pub(crate) fn skip_whitespace(&mut self) -> Option<Range<Position>> {
+        #[cfg(feature = "verif_hooks")]
+        crate::verif_hooks::step();
         let mut start_pos = None;
         let s = self.cur_str();
         let mut i = s.char_indices();
